@@ -719,7 +719,29 @@ def generate_dmr(repo):
     return "\n".join(parts)
 
 
-GENERATORS = [("DmrSrc.lean", generate_dmr), ("LibSrc.lean", generate_lib), ("SliceSrc.lean", generate), ("DapSrc.lean", generate_dap), ("DodsSrc.lean", generate_dods),
+def generate_ssf(repo):
+    """wsgi/ssf.py ServerSideFunctions.handle: the pass-through test (C19's `Ssf.route`)"""
+    ssf = parse_src(repo, "wsgi", "ssf.py")
+
+    def pass_test():
+        fn = find_method(ssf, "ServerSideFunctions", "handle")
+        at = [i for i, x in enumerate(fn.body) if ast.unparse(x) == "(path, response) = req.path.rsplit('.', 1)"
+              or ast.unparse(x) == "path, response = req.path.rsplit('.', 1)"]
+        if not at or at[0] + 1 >= len(fn.body) or not isinstance(fn.body[at[0] + 1], ast.If):
+            raise Untranslatable("expected `path, response = req.path.rsplit(\".\", 1)` followed by an if statement")
+        with abstracting({}, str_vars={"response"}, return_tags=True):
+            return stmts([fn.body[at[0] + 1]], None, tail=True)
+
+    parts = [HEADER,
+             block("src_ssf_pass_test", "wsgi/ssf.py ServerSideFunctions.handle: the statement after the first "
+                   "`path, response = req.path.rsplit(\".\", 1)` (DAS requests and requests without calls are passed "
+                   "through); `called` and `response` are inputs, `return e` is `@ret = \"<source text of e>\"`",
+                   pass_test),
+             "end Pydap.Gen\n"]
+    return "\n".join(parts)
+
+
+GENERATORS = [("SsfSrc.lean", generate_ssf), ("DmrSrc.lean", generate_dmr), ("LibSrc.lean", generate_lib), ("SliceSrc.lean", generate), ("DapSrc.lean", generate_dap), ("DodsSrc.lean", generate_dods),
               ("AppSrc.lean", generate_app), ("CeSrc.lean", generate_ce)]
 
 
